@@ -4,9 +4,9 @@ package interp
 
 import (
 	"fmt"
+	"go/types"
 	"os"
 	"runtime/debug"
-	"go/types"
 	"sort"
 	"strings"
 	"time"
